@@ -40,6 +40,12 @@ package quotaresource
 //@   ensures[blocked-only-if-full] seq: result == blocked ==> ite(msOf(q).gRestarted[q.currentCountKey], 0, old(cntOf(msOf(q), q.currentCountKey))) + 1 > q.maxCount && cntOf(msOf(q), q.currentCountKey) == old(cntOf(msOf(q), q.currentCountKey))
 //@   ensures[other-counters-untouched] seq: forall(k, string, k != q.currentCountKey ==> cntOf(msOf(q), k) == old(cntOf(msOf(q), k)))
 
+// Reading the counter (the "quota used" gauge of the metrics, a second path to the window state) changes nothing: the
+// window is rolled and the counter reset only by the admission path.
+//@ func (*quota).GetCounter
+//@   prop C01
+//@   requires quotaOK(q)
+//@   modifies now
 //@ func (*quota).Allowed
 //@   prop C01
 //@   modifies mapof(q.allowedByReqID), now
